@@ -10,7 +10,8 @@ RULE = ("(a) exhaustive: every string of length <= 4 (quick) / 5 (thorough) over
         "contains; (c) _টাইপ on a value of each of the seven types; (d) wrong argument counts and types: ten hand-written calls plus every argument tuple of length 0..3 over one value of "
         "each kind (two strings, number, list of strings, boolean, record) for the three built-ins. "
         "Python's str.split / str.join are the oracle (through the structured semantics); compared with the Lean model too. "
-        "Non-trivial: the separator occurs in the string.")
+        "Non-trivial: the separator occurs in the string."
+        ' Shared name-collision family (props/collisions.py): 24 scenarios in which one name is bound more than once, x 2 layouts.')
 ASSUMPTIONS = ["property clause 'join then split returns the list' is false for multi-character separators "
                "(KNOWN-FINDING C17-multichar); it is checked for single-character separators"]
 default_compare = lambda m, i: C.compare_run(m, i)
@@ -182,4 +183,10 @@ def cases(rng, tier, stats):
                 out.append(prog_case("argument-tuples", [("print", G.s("আগে")), ("print", G.call(fn, *args)), ("print", G.s("পরে"))], mode="oneline"))
                 nt += 1
     stats["argument_tuples"] = nt
+    # one name in two roles (props/collisions.py): shadowed functions, parameters named like globals / built-ins / their own function,
+    # bare conditions, indexed and plain writes, re-declarations — every use of a name resolves to its innermost binding
+    from props import collisions
+    nc_ = collisions.family()
+    out += nc_
+    stats["name_collision_programs"] = len(nc_)
     return out
